@@ -235,6 +235,41 @@ def explore(ctx, depth):
             ctx.fail({'history': list(seq), 'clause': 'history independence'}, 'the outcome for a cell depends on the cells parsed before it', impl=outs, expected=exp)
     ctx.count('histories', len(seqs))
 
+    # ---- a record whose cells are ALL empty (a line of tabs only) in a score with several spines: one error per cell, with the line; errors
+    # further down keep their line numbers (round 6, C12_r6_1: `if not any(row)` took such a record for a blank line)
+    for n in (2, 3, 4):
+        text = '\t'.join(['**kern'] * n) + '\n' + '\t'.join(['4c'] * n) + '\n' + '\t' * (n - 1) + '\n' + '\t'.join(['4zz'] + ['4d'] * (n - 1)) + '\n' + \
+               '\t'.join(['*-'] * n) + '\n'
+        got = call(lambda: [[e.line, e.encoding] for e in kp.loads(text)[1]])
+        exp = {'ok': [[3, '']] * n + [[4, '4zz']]}
+        ctx.seen({'text': text, 'clause': 'a record of empty cells'}, True)
+        if got != exp:
+            ctx.fail({'text': text, 'clause': 'a record of empty cells'}, 'errors are not exactly the malformed cells with their line and text', impl=got, expected=exp['ok'])
+    # ---- malformed cells read from a FILE: characters that `str.splitlines` takes for line boundaries are ordinary (unknown) characters in a
+    # file whose lines end with LF: the cell is one malformed cell, reported once with its line, exported verbatim (round 6, C12_r6_2)
+    import tempfile as _tf, os as _os
+    tmp = _tf.mkdtemp(prefix='kernverif_c12_')
+    try:
+        for k, ch in enumerate(['\x0b', '\x0c', '\x1c', '\x1e', '\x85', '\u2028', '\u2029', '\u20ac']):
+            for cell in ('4d' + ch, '4' + ch + 'd'):
+                rows = [['**kern', '**kern'], ['*clefG2', '*clefF4'], ['4c', '4C'], [cell, '4D'], ['4e', cell], ['*-', '*-']]
+                ftext = ''.join('\t'.join(r) + '\n' for r in rows)
+                path = _os.path.join(tmp, 'm%d.krn' % k)
+                with open(path, 'w', encoding='utf-8', newline='') as fh:
+                    fh.write(ftext)
+                def run_f():
+                    d, errs = kp.load(path)
+                    return [[[e.line, e.encoding] for e in errs], kp.dumps(d)]
+                got = call(run_f)
+                exp = {'ok': [[[4, cell], [5, cell]], ftext]}
+                ctx.seen({'clause': 'malformed cell in a file', 'char': repr(ch)}, True)
+                if got != exp:
+                    ctx.fail({'file_text': ftext, 'char': repr(ch), 'clause': 'malformed cell read from a file'},
+                             'a malformed cell of a file is not reported once with its line and exported verbatim in place', impl=got, expected=exp['ok'])
+    finally:
+        import shutil as _sh
+        _sh.rmtree(tmp, ignore_errors=True)
+
 
 def replay(ctx, payload):
     explore(ctx, 'quick')
